@@ -9,7 +9,7 @@ FILES = ['theories/Base.v', 'theories/gen/Codec.v', 'theories/gen/Tp21Gen.v', 't
          'proofs/Tp21Resp.v', 'proofs/Tp21Orig.v', 'proofs/TimeoutProofs.v',
          'theories/gen/Tp22Gen.v', 'theories/Model22.v', 'proofs/MpgProofs.v', 'proofs/PoolProofs.v', 'proofs/Tp22Proofs.v',
          'proofs/RobustProofs.v', 'proofs/NoOversleep.v', 'proofs/NoOversleep22.v',
-         'proofs/Net21.v', 'proofs/Net21Proofs.v', 'proofs/Net21Timeout.v', 'proofs/Tp22Resp.v', 'proofs/Net22.v', 'proofs/Net22Proofs.v', 'proofs/Net22Bam.v', 'proofs/Net22Timeout.v']
+         'proofs/Net21.v', 'proofs/Net21Proofs.v', 'proofs/Net21Timeout.v', 'proofs/Tp22Resp.v', 'proofs/Net22.v', 'proofs/Net22Proofs.v', 'proofs/Net22Bam.v', 'proofs/Net22Timeout.v', 'proofs/TimeoutProofs22.v']
 T_FOLLOW = {'j1939-21': 7_000_000, 'j1939-22': 9_000_000}
 BOUND = {'j1939-21': 1_250_000, 'j1939-22': 3_000_000}
 PROBE = 25_000
